@@ -31,6 +31,7 @@ def check(ctx, tier):
     obs += ctx.attempt(scanner.ttl_token_table, ctx, "D-f", default=[])
     obs += ctx.attempt(scanner.numeric_token_table, ctx, "D-g", default=[])
     obs += ctx.attempt(scanner.ttl_document_table, ctx, "D-h", default=[])
+    obs += ctx.attempt(scanner.line_reader_split, ctx, "D-i", default=[])
     exceptions.apply(obs)
     return {"obs": obs, "floors": [Floor("automaton cells extracted", len(table), 16), Floor("find/rfind sites examined", n_s, 12),
                                    Floor("loops examined for stale snapshots", n_st, 5)],
